@@ -20,7 +20,7 @@ type c12StreamCase struct {
 	Args   []string
 }
 
-var c12StreamFilters = []string{".[]", ".[] | values", "select(length > 0) | .[]", "if length == 0 then empty else .[] end", ".[]?", "(.[] | select(. != null)), (.[] | select(. == null))", "limit(2; .[])", "first(.[])?", ".[1:][]", "try (if length == 2 then error(\"x\") else .[] end) catch empty"}
+var c12StreamFilters = []string{".[]", ".[] | values", "select(length > 0) | .[]", "if length == 0 then empty else .[] end", ".[]?", "(.[] | select(. != null)), (.[] | select(. == null))", "limit(2; .[])", "first(.[])?", ".[1:][]", "try (if length == 2 then error(\"x\") else .[] end) catch empty", ".[] | if . == null then error(\"an input fails here\") else . end", ".[] | if . == null then halt else . end"}
 
 func c12StreamWant(docs [][]string, filter int) []string {
 	var out []string
@@ -55,6 +55,19 @@ func c12StreamWant(docs [][]string, filter int) []string {
 			if len(d) != 2 {
 				out = append(out, d...)
 			}
+		case 10, 11:
+			// the values before the first null; filter 10 goes on with the next input, filter 11 stops everything
+			stop := false
+			for _, v := range d {
+				if v == "null" {
+					stop = true
+					break
+				}
+				out = append(out, v)
+			}
+			if stop && filter == 11 {
+				return out
+			}
 		default:
 			out = append(out, d...)
 		}
@@ -85,8 +98,18 @@ var kC12Stream = run.NewKind("c12.streams", func(c *run.Ctx, t c12StreamCase) *r
 		return nil
 	}
 	desc := fmt.Sprintf("gojq %q on %s", argv, run.Clip(strings.ReplaceAll(in.String(), "\n", " ")))
-	if w.Code != 0 || len(w.Stderr) != 0 {
-		return run.Failf("%s: exit %d, stderr %s", desc, w.Code, run.Clip(string(w.Stderr)))
+	wantCode := 0
+	if t.Filter == 10 {
+		for _, d := range t.Docs {
+			for _, v := range d {
+				if v == "null" {
+					wantCode = 5
+				}
+			}
+		}
+	}
+	if w.Code != wantCode || (len(w.Stderr) != 0) != (wantCode != 0) {
+		return run.Failf("%s: exit %d (expected %d), stderr %s", desc, w.Code, wantCode, run.Clip(string(w.Stderr)))
 	}
 	text := w.Stdout
 	yaml := false
@@ -172,6 +195,16 @@ func c12StreamCases(r *rand.Rand, n int) []c12StreamCase {
 			m /= 3
 		}
 		out = append(out, c12StreamCase{Docs: docs, Filter: 0, Args: []string{"--yaml-output"}}, c12StreamCase{Docs: docs, Filter: 1, Args: []string{"-c"}})
+	}
+	// ... and which of 4 inputs fail (or halt) before, between or after their values
+	for mask := 0; mask < 256; mask++ {
+		docs := make([][]string, 4)
+		m := mask
+		for j := range docs {
+			docs[j] = [][]string{{}, {"1"}, {"null"}, {"\"x\"", "null", "2"}}[m%4]
+			m /= 4
+		}
+		out = append(out, c12StreamCase{Docs: docs, Filter: 10, Args: []string{"--yaml-output"}}, c12StreamCase{Docs: docs, Filter: 10 + mask%2, Args: [][]string{{"-c"}, {"--yaml-output"}, {}, {"--yaml-output", "--indent", "3"}}[mask%4]})
 	}
 	return out
 }
